@@ -3,6 +3,7 @@ package main
 import (
 	"fmt"
 	"github.com/akramarenkov/cqos/v2/priority/divider"
+	"math"
 	"math/rand"
 	"sort"
 	"strings"
@@ -68,6 +69,20 @@ func (g *gen) config() (string, string, uint, []keyCap, fault) {
 		}
 	default:
 		ps = randDistinct(r, n, 12)
+	}
+	if r.Intn(8) == 0 {
+		// priorities are plain uint values: the largest ones (beyond 2^63, where a signed
+		// difference or a conversion to int changes sign) are as valid as small ones; with the
+		// Fair divider, which does not add priorities up
+		div = "fair"
+		huge := []uint{math.MaxUint, math.MaxUint - 1, 1 << 63, 1<<63 + 1, 1<<63 - 1}
+		r.Shuffle(len(huge), func(i, j int) { huge[i], huge[j] = huge[j], huge[i] })
+		k := 1 + r.Intn(2)
+		if k > len(ps) {
+			k = len(ps)
+		}
+		copy(ps, huge[:k])
+		sort.Slice(ps, func(i, j int) bool { return ps[i] > ps[j] })
 	}
 	var H uint
 	switch r.Intn(4) {
@@ -340,12 +355,14 @@ func (g *gen) script() {
 		// ---- base(): whole, or piece by piece
 		var processed uint
 		var failed bool
+		proceeded := false
 		fullyReleased := totalInflight(s) == 0
 		idle := fullyReleased && len(s.pending) == 0
 		if fullyReleased && r.Intn(2) == 0 && !(ver == "v1" && flt.kind != "none") {
 			rep := g.do("base")
 			fmt.Sscanf(rep, "n=%d", &processed)
 			failed = s.errSeen
+			proceeded = rep[:4] != "hang"
 			if rep[:4] == "hang" {
 				s.fail("C06 base() does not return although every delivered item has been released (ver=%s zero-share=%v)", s.ver, s.zeroShare())
 				return
@@ -377,6 +394,7 @@ func (g *gen) script() {
 				g.do("fb1")
 			}
 			if ok {
+				proceeded = true
 				var n uint
 				rep := g.do("prio")
 				fmt.Sscanf(rep, "n=%d", &n)
@@ -392,7 +410,11 @@ func (g *gen) script() {
 			}
 		}
 		g.monitorShares(true)
-		if g.k.single && !failed && idle && len(active) == 1 {
+		if g.k.single && !failed && (idle || proceeded) && len(active) == 1 {
+			// (also in rounds that started with items in flight: once calcTactic has let the
+			// round proceed, a priority that is alone in having data gets every vacant handler -
+			// first its own allotment, then, through recalcTactic, what the idle priorities
+			// cannot use)
 			g.monitorAlone(active)
 		}
 
@@ -439,8 +461,10 @@ func (g *gen) monitorAlone(active map[uint]bool) {
 			return
 		}
 		avail := len(s.arrived[c]) - len(s.got[c]) // still queued
-		if avail > 0 && uint(totalInflight(s)) < s.H {
-			s.fail("C06 ver=%s zero-share=%v priority %d alone has data (%d queued) but only %d of %d handlers are occupied", s.ver, s.zeroShare(), p, avail, totalInflight(s), s.H)
+		// a release the discipline has not read yet still occupies its handler in the
+		// discipline's books
+		if avail > 0 && uint(totalInflight(s)+len(s.pending)) < s.H {
+			s.fail("C06 ver=%s zero-share=%v priority %d alone has data (%d queued) but only %d of %d handlers are occupied (%d of them released, the release not yet read)", s.ver, s.zeroShare(), p, avail, totalInflight(s)+len(s.pending), s.H, len(s.pending))
 		}
 	}
 }
